@@ -195,7 +195,7 @@ func (c *Ctx) workerErrFlow(pkgRel, fn string, _ interface{}, clause string) {
 			if g == nil {
 				continue
 			}
-			what := ""
+			what, keyName := "", ""
 			switch {
 			case isRepoFunc(g, "tree", "Tree", "ReinitIndexes"):
 				what = "ReinitIndexes on the input tree"
@@ -203,6 +203,10 @@ func (c *Ctx) workerErrFlow(pkgRel, fn string, _ interface{}, clause string) {
 				what = "the taxon-set check CompareTipIndexes"
 			case isRepoFunc(g, "tree", "EdgeIndex", "PutEdgeValue") && pkgRel == "support":
 				what = "PutEdgeValue"
+			case pkgRel == "support" && inRepo(g) && g.Pkg() == fi.Pkg.Types && returnsError(g) && c.reaches(g, func(h *types.Func) bool { return isRepoFunc(h, "tree", "EdgeIndex", "PutEdgeValue") }, 2, map[*types.Func]bool{}):
+				// the indexing phase extracted into a helper that returns the first error of PutEdgeValue
+				what = "PutEdgeValue (through " + g.Name() + ")"
+				keyName = "PutEdgeValue"
 			default:
 				continue
 			}
@@ -210,7 +214,10 @@ func (c *Ctx) workerErrFlow(pkgRel, fn string, _ interface{}, clause string) {
 			if r.dropped && strings.HasPrefix(what, "PutEdgeValue") {
 				continue
 			}
-			c.reportErrFlow("ERRFLOW", name+"#worker/"+g.Name(), r, what, clause)
+			if keyName == "" {
+				keyName = g.Name()
+			}
+			c.reportErrFlow("ERRFLOW", name+"#worker/"+keyName, r, what, clause)
 		}
 		// (2) the item's own Err
 		if item != nil {
@@ -397,3 +404,12 @@ func (c *Ctx) hashMapLocks(rule string) {
 }
 
 var _ = packages.NeedName
+
+// returnsError: the last result of fn is of type error
+func returnsError(fn *types.Func) bool {
+	sig, ok := fn.Type().(*types.Signature)
+	if !ok || sig.Results().Len() == 0 {
+		return false
+	}
+	return isErrorType(sig.Results().At(sig.Results().Len() - 1).Type())
+}
